@@ -86,7 +86,13 @@ def main():
                 'demo': 'tests/seeded_demo.rs (copy: seeded_demo.rs); run: cargo test --offline %s --test seeded_demo' % feats,
                 'confirmation': c, 'what_i_ran': 'tools/seeded.py import (scratch copy of /repo: demo passes without the change, fails with it; '
                                                  'existing suite passes with it; builds in the other configurations)'}
-        json.dump(meta, open(os.path.join(out, 'meta.json'), 'w'), indent=1)
+        mp = os.path.join(out, 'meta.json')
+        if os.path.exists(mp):
+            old = json.load(open(mp))
+            for k in ('checks_fired', 'caught_by_target_check'):
+                if k in old:
+                    meta[k] = old[k]
+        json.dump(meta, open(mp, 'w'), indent=1)
         print(sid, 'confirmed' if c['confirmed'] else 'NOT CONFIRMED', json.dumps(c)[:600])
         return
     if sys.argv[1] == 'eval':
